@@ -54,16 +54,40 @@ def float_up(q):
     return f
 
 
+def householder(u):
+    n = len(u)
+    uu = sum(x * x for x in u)
+    return [[(1 if i == j else 0) - 2 * u[i] * u[j] / uu for j in range(n)] for i in range(n)]
+
+
+def build_sym(u, D):
+    """u, D lists of Fractions.  exact A = Q D Q^T, its rounding fl(A) (symmetric floats), delta >= ||fl A - A||_F"""
+    n = len(u)
+    Q = householder(u)
+    A = [[sum(Q[i][k] * D[k] * Q[j][k] for k in range(n)) for j in range(n)] for i in range(n)]
+    F = [[0.0] * n for _ in range(n)]
+    err2 = Fraction(0)
+    for i in range(n):
+        for j in range(i, n):
+            F[i][j] = F[j][i] = float(A[i][j])
+    for i in range(n):
+        for j in range(n):
+            err2 += (Fraction(F[i][j]) - A[i][j]) ** 2
+    return F, float_up(sqrt_up(err2))
+
+
+def start_component(u):
+    """|<1, q1>| / ||1||, q1 = first column of the Householder matrix of u (a unit vector)"""
+    n = len(u)
+    Q = householder(u)
+    return float(abs(sum(Q[i][0] for i in range(n)))) / math.sqrt(n)
+
+
 def sym_case(rng, n, sign):
-    """exact A = Q D Q^T (Fractions), its rounding fl(A) (symmetric floats), l1, delta >= ||fl A - A||_F"""
+    """random member of the accuracy class: fl(A), l1, delta, style"""
     while True:
         u = [Fraction(rng.randint(-64, 64), 64) for _ in range(n)]
-        uu = sum(x * x for x in u)
-        if uu == 0:
-            continue
-        Q = [[(1 if i == j else 0) - 2 * u[i] * u[j] / uu for j in range(n)] for i in range(n)]
-        s1 = sum(Q[i][0] for i in range(n))          # <1, q1>, q1 = first column of Q (unit vector)
-        if float(abs(s1)) / math.sqrt(n) >= MIN_START_COMPONENT:
+        if any(u) and start_component(u) >= MIN_START_COMPONENT:
             break
     mag = 10.0 ** rng.uniform(-3, 3)
     l1 = sign * mag
@@ -84,23 +108,37 @@ def sym_case(rng, n, sign):
         if abs(d) * 2 > abs(Fraction(l1)):
             d = Fraction(l1) / 2
         D.append(d)
-    A = [[sum(Q[i][k] * D[k] * Q[j][k] for k in range(n)) for j in range(n)] for i in range(n)]
-    F = [[0.0] * n for _ in range(n)]
-    err2 = Fraction(0)
-    for i in range(n):
-        for j in range(i, n):
-            F[i][j] = F[j][i] = float(A[i][j])
-    for i in range(n):
-        for j in range(n):
-            err2 += (Fraction(F[i][j]) - A[i][j]) ** 2
-    return F, l1, float_up(sqrt_up(err2)), style
+    F, delta = build_sym(u, D)
+    return F, l1, delta, style
+
+
+# Finding F13e: members of the accuracy class on which the exit test is met by coincidence at the
+# first loop iteration (first Rayleigh quotient ~ first scaling component) long before convergence.
+# (u of the Householder matrix, D, tolerance); found by search, see known_findings.d/C13.json
+COINCIDENCES = [
+    ([-1.0, 0.9375], [1.0, 0.4881], 1e-4),
+    ([-1.0, 0.9375], [1.0, 0.488075], 1e-6),
+    ([-0.90625, 0.8125, 0.15625], [1.0, -0.31932281545031405, 0.15298890108503505], 1e-4),
+    ([-0.6875, 0.34375, 0.5625, -0.75], [1.0, -0.18423922757742228, 0.49478269661951235, 0.4032852763371061], 1e-4),
+    ([0.140625, -0.328125, 0.421875, -0.484375],
+     [-1.0, -0.17463728279526947, -0.48431332226217394, -0.2800834167126386], 1e-4),
+]
+
+
+def coincidence_cases(rng, tier):
+    for u, D, es in COINCIDENCES:
+        uf = [Fraction(x) for x in u]
+        assert start_component(uf) >= MIN_START_COMPONENT and all(abs(d) * 2 <= abs(D[0]) for d in D[1:])
+        F, delta = build_sym(uf, [Fraction(d) for d in D])
+        yield Case(line_of('pm', es, F), 'accuracy coincidence',
+                   {'kind': 'accuracy', 'l1': f2hex(D[0]), 'delta': f2hex(delta), 'style': 'coincidence'})
 
 
 def accuracy_cases(rng, tier):
-    per = 9 if tier == 'quick' else 150
+    per = 50 if tier == 'quick' else 600
     for n in range(1, 9):
         for sign in (1, -1):
-            for _ in range(per * (1 if n > 1 else 1)):
+            for _ in range(per if n > 1 else max(4, per // 10)):
                 F, l1, delta, style = sym_case(rng, n, sign)
                 es = rng.choice(TOLS)
                 cmd = 'pma' if rng.random() < 0.25 else 'pm'
@@ -125,7 +163,7 @@ def embed(rng, block, n, small=True):
 
 
 def termination_matrices(rng, tier):
-    reps = 1 if tier == 'quick' else 6
+    reps = 2 if tier == 'quick' else 12
     out = []
     for _ in range(reps):
         for n in range(1, 6):
@@ -212,6 +250,7 @@ def malformed_cases(rng, tier):
 
 def gen(rng, tier):
     yield from accuracy_cases(rng, tier)
+    yield from coincidence_cases(rng, tier)
     yield from termination_cases(rng, tier)
     yield from malformed_cases(rng, tier)
 
@@ -309,6 +348,52 @@ def judge(case, impl):
     delta = Fraction(hex2f(case.meta['delta']))       # |l1(fl A) - l1| <= delta (Weyl)
     if abs(L - l1) > C * tol * (abs(l1) + delta) + delta:
         return 'eigenvalue differs from the dominant eigenvalue by more than %d tol |l1|' % C
+    return None
+
+
+def scaling(y):
+    m = max(y)
+    return m if m > 0 else min(y)
+
+
+def known(case, impl, clause):
+    """F13e — input class, decided from the INPUT alone by the exact (rational) iteration: a member of the
+    accuracy class on which the exit test |l_k - l_{k-1}| < es |l_k| is met at a step k <= 8 whose exact
+    Rayleigh quotient is further than C tol |l1| from the dominant eigenvalue (premature exit)."""
+    if not (case.meta and case.meta.get('kind') == 'accuracy'):
+        return None
+    if not (clause.startswith('residual') or clause.startswith('eigenvalue')):
+        return None
+    cmd, es, rows = parse(case)
+    n = len(rows)
+    A = [[Fraction(x) for x in r] for r in rows]
+    tol = Fraction(es)
+    l1 = Fraction(hex2f(case.meta['l1']))
+    delta = Fraction(hex2f(case.meta['delta']))
+    mv = lambda x: [sum(A[i][j] * x[j] for j in range(n)) for i in range(n)]
+    y = mv([Fraction(1)] * n)
+    ev = scaling(y)
+    if ev == 0:
+        return None
+    x = [t / ev for t in y]
+    for k in range(1, 9):
+        y = mv(x)
+        s = scaling(y)
+        if s == 0:
+            return None
+        nx = [t / s for t in y]
+        den = sum(t * t for t in nx)
+        rho = sum(a * b for a, b in zip(nx, mv(nx))) / den
+        if rho == 0:
+            return None
+        if abs((rho - ev) / rho) < tol:
+            if abs(rho - l1) > C * tol * (abs(l1) + delta) + delta:
+                return ('F13e premature exit: the exit test is met at iteration %d, where the estimate %.6g is compared with '
+                        'the %s %.6g, while the dominant eigenvalue is %.6g'
+                        % (k, float(rho), 'first scaling component' if k == 1 else 'previous Rayleigh quotient',
+                           float(ev), float(l1)))
+            return None
+        ev, x = rho, nx
     return None
 
 
